@@ -114,7 +114,7 @@ def run(ctx):
                     if isinstance(s, ast.Constant) and s.value not in ('MODEL ', 'TER   ', 'ATOM  ',
                                                                        'HETATM'):
                         bad.append(node)
-                    if isinstance(s, ast.Name) and s.id not in tag_alias and s.id != 'tags':
+                    if isinstance(s, ast.Name) and s.id not in tag_alias and s.id != rl.tags_param:
                         bad.append(node)
     ctx.ob('C07.R3', 'tags:only-known-records', not bad and n_tag >= 3,
            'only MODEL, TER, ATOM and HETATM records are ever inspected; any other record is a '
@@ -124,7 +124,7 @@ def run(ctx):
     pos = args.args
     defaults = [None] * (len(pos) - len(args.defaults)) + list(args.defaults)
     for a, d in zip(pos, defaults):
-        if a.arg == 'tags' and d is not None:
+        if a.arg == rl.tags_param and d is not None:
             from sa.astutil import literal, FoldError
             try:
                 tags_default = tuple(literal(d))
@@ -268,14 +268,15 @@ def run(ctx):
     pr = prog.mod('protonate')
     pa = pr.func('Protonate.protonate_atom')
     first = [s for s in pa.body if not (isinstance(s, ast.Expr) and isinstance(s.value, ast.Constant))]
-    ok = bool(first) and isinstance(first[0], ast.If) and norm(first[0].test) == 'atom.is_protonated' \
+    pa_atom = pa.args.args[1].arg
+    ok = bool(first) and isinstance(first[0], ast.If) and norm(first[0].test) == pa_atom + '.is_protonated' \
         and block_always_exits(first[0].body)
     ctx.ob('C07.R5', 'protonate_atom:idempotent-guard', ok,
            'protonate_atom returns before any effect when the atom is already protonated', pr,
            first[0] if first else pa)
     last = pa.body[-1]
     ctx.ob('C07.R5', 'protonate_atom:marks-at-end',
-           isinstance(last, ast.Assign) and norm(last) == 'atom.is_protonated = True',
+           isinstance(last, ast.Assign) and norm(last) == pa_atom + '.is_protonated = True',
            'is_protonated is set as the last step of protonate_atom', pr, last)
     wr = set()
     for m2, q2, f2 in prog.all_funcs():
